@@ -408,7 +408,7 @@ func runBounds(c *core.Ctx, filter func(pkgRel, fn string) bool) {
 	if filter == nil {
 		for k := range boundsTabled {
 			if !tabledSeen[k] {
-				c.InternalErr(k, "tabled R-BOUNDS exception no longer matches any construct (stale table)")
+				c.Note("tabled R-BOUNDS exception %q matches no construct any more (harmless; table can be pruned)", k)
 			}
 		}
 		c.Min("index expressions inspected", total, 40)
